@@ -88,7 +88,7 @@ theorem normalize_never_raises (puny : Str → Str) (platform : Str → Str) (o 
   | some p => right; exact ⟨p, rfl, rfl⟩
 
 /-- in particular no error value, whatever `unsplit` -/
-theorem normalize_never_raises' (puny : Str → Str) (platform : Str → Str) (o : Normalize.Opts)
+theorem normalize_no_error_value (puny : Str → Str) (platform : Str → Str) (o : Normalize.Opts)
     (ir unsplit : Bool) (url : Str) :
     ∀ e, normalizeUrlExcept puny platform o ir unsplit url ≠ .error e := by
   intro e h
